@@ -39,6 +39,8 @@ func buildTarget(v any) *model.Target {
 		t.Dependencies = append(t.Dependencies, getLabel(d))
 	}
 	t.Inputs = strList(m["inputs"])
+	// what the loader records: the raw inputs as written (literal ones and glob patterns)
+	t.UnresolvedInputs = append(append([]string{}, t.Inputs...), strList(m["globs"])...)
 	for _, o := range anyList(m["outs"]) {
 		om, _ := o.(map[string]any)
 		k, _ := om["k"].(string)
